@@ -136,6 +136,8 @@ class YPCodeProgram:
 
 # CPython refuses to compile a function with more statically nested blocks
 _MAX_NESTED_BLOCKS = 20
+# and an expression with more nested brackets
+_MAX_NESTED_BRACKETS = 200
 
 def _nested_blocks(code):
     """the number of nested Python blocks that the statements in code need."""
@@ -173,6 +175,7 @@ class YPPrologCompiler:
         return YPCodeProgram(funcs)
     def compile_function_body(self,clause):
         self._debug(f'-- Clause: {clause.head} :- {clause.body}')
+        self.current_clause = clause
         self.find_clause_head_variable_arguments(clause.head.functor.args)
         head_var_arguments = self.compile_clause_head_variable_arguments(clause.head.functor.args)
         self.push_bound_vars( [ v for v in self.head_args_by_pos if v != None ] )
@@ -354,7 +357,8 @@ class YPPrologCompiler:
         self._debug("------ case: unknown!!", body)
 
     def compile_predicate(self,pred,code):
-        args = [ self.compile_expression(a) for a in pred.functor.args ]
+        # the arguments are emitted inside query(name,[...])
+        args = [ self.compile_expression(a,2) for a in pred.functor.args ]
         return [ YPCodeForeach(YPCodeCall('query',[YPCodeExpr(pred.functor.name.value),YPCodeList(args)]),code) ]
         
 
@@ -366,28 +370,34 @@ class YPPrologCompiler:
                 code = self.compile_unification(argvar,functorargs[i-1],code)
         return code
     def compile_unification(self,var,val,code):
-        return [ YPCodeForeach(YPCodeCall('unify',[YPCodeVar(var),self.compile_expression(val)]), code) ]
-    def compile_expression(self,expr):
+        return [ YPCodeForeach(YPCodeCall('unify',[YPCodeVar(var),self.compile_expression(val,1)]), code) ]
+    def compile_expression(self,expr,level=0):
+        """level is the number of brackets that are open around the code for expr."""
+        if level + 2 > _MAX_NESTED_BRACKETS:
+            clause = self.current_clause
+            raise CompilerError(getattr(self.context, 'current_source_file', ''), clause.ctx,
+                    f'clause for {clause.head.name()}/{len(clause.head.args())} is too large:'
+                    f' a term needs more than {_MAX_NESTED_BRACKETS} nested Python brackets')
         if isinstance(expr,Atom):
             return YPCodeCall('atom',[YPCodeExpr(expr.value)])
         if isinstance(expr,VariableTerm):
             return YPCodeVar(expr.varname)
         if isinstance(expr,Functor):
-            args = [ self.compile_expression(a) for a in expr.args ]
+            args = [ self.compile_expression(a,level+2) for a in expr.args ]
             return YPCodeCall('functor',[ YPCodeExpr(expr.name.value), YPCodeList(args) ])
         if isinstance(expr,NumeralTerm):
             return YPCodeValue(expr.num)
         if isinstance(expr,ListTerm):
-            return self.compile_list(expr)
+            return self.compile_list(expr,level)
         if isinstance(expr,ListPairTerm):
-            return YPCodeCall('listpair',[ self.compile_expression(expr.head), self.compile_expression(expr.tail) ])
+            return YPCodeCall('listpair',[ self.compile_expression(expr.head,level+1), self.compile_expression(expr.tail,level+1) ])
         self._debug("UNK EXPR", expr,repr(expr))
-    def compile_list(self,expr):
+    def compile_list(self,expr,level=0):
         self._debug("compile_list:",expr)
         if expr.items == []:
             return YPCodeVar('ATOM_NIL')
         else:
-            return YPCodeCall('makelist',[YPCodeList([ self.compile_expression(x) for x in expr.items ])])
+            return YPCodeCall('makelist',[YPCodeList([ self.compile_expression(x,level+2) for x in expr.items ])])
             # return NIL
     def find_clause_head_variable_arguments(self,args):
         # gets all arguments that are variables from args
